@@ -85,7 +85,7 @@ def block_imag(ctx, tm, psi, as_mpdm=False):
         except Exception as e:
             sig = f"{nm}:imag-time:exception:{exc_sig(e)}"
             if spec["kind"] == "cmf" and spec.get("trapz") and isinstance(e, AssertionError) and exc_sig(e).endswith("@astype") \
-                    and not np.iscomplexobj(v0):
+                    and not any(np.iscomplexobj(np.asarray(t.array)) for t in psi):
                 # same cause as the lost order: the midpoint environment is propagated in REAL time and is
                 # complex; the trapezoid variant copies its last site into the real-valued state
                 sig = "tdvp_mu_cmf:imag-time:midpoint-environment-in-real-time"
